@@ -223,11 +223,19 @@ def printable_classes(ctx: Ctx) -> List[ClassInfo]:
 
 def r10_1(ctx: Ctx) -> RuleResult:
     rr = RuleResult("R10.1", "every field that evaluation reads is printed", floor=14)
+    constructed = {callee_name(c) for fn_ in ctx.repo.functions.values() for c in calls(fn_.node)}
     for cls in printable_classes(ctx):
         evals = [m for name in EVAL_METHODS for m in [cls.methods.get(name)] if m is not None]
         if not evals:
+            # evaluation inherited from an intermediate base of the package (a template method with a hook the class fills in)
+            evals = [m for name in EVAL_METHODS for m in [ctx.repo.find_method(cls, name)]
+                     if m is not None and m.cls is not None and m.cls.name not in ("FilterExpression", "JSONPathSelector", "Path")
+                     and m.cls is not cls and "__str__" not in m.cls.methods and not any(isinstance(x, ast.Raise) and "NotImplementedError" in ast.unparse(x) for x in ast.walk(m.node))]
+        if not evals:
             continue
         s = ctx.repo.find_method(cls, "__str__")
+        if s is None and cls.name not in constructed and ctx.repo.subclasses(cls, strict=True):
+            continue  # an intermediate base that is never instantiated: its subclasses are checked with what they inherit
         if s is None:
             rr.bad(None, None, f"{cls.name} is evaluated but has no __str__", construct=f"{cls.name}.__str__",
                    file=cls.module.relpath, qualname=cls.qualname)
